@@ -566,6 +566,12 @@ class ViewMixin:
     def yz_init(self, st, comps):
         st.ghost["YZ"] = dict(comps)
 
+    def get_slice(self, st, base, sl, node):
+        if self.is_zlist(st, base) and sl.lower is None and sl.upper is None and sl.step is None:
+            o = st.obj(base.ref)
+            return [(st, zl(st, self, o.data, ekind=o.cls))]
+        return super().get_slice(st, base, sl, node)
+
     def b_collection(self, st, name, args, node):
         if args and self.is_zlist(st, args[0]) and name in ("list", "tuple"):
             o = st.obj(args[0].ref)
@@ -573,11 +579,23 @@ class ViewMixin:
         return super().b_collection(st, name, args, node)
 
     def wrap_comp(self, n, st):
-        """`[Ctor(field=x) for x in <sequence-valued list of objects>]` -> the same sequence, elements wrapped by Ctor."""
+        """`[Ctor(field=x) for x in <sequence-valued list of objects>]` -> the same sequence, elements wrapped by Ctor;
+        `[x for x in <sequence-valued list>]` -> a copy of the list."""
         if len(n.generators) != 1 or n.generators[0].ifs or not isinstance(n.generators[0].target, ast.Name):
             return None
         e = n.elt
         var = n.generators[0].target.id
+        if isinstance(e, ast.Name) and e.id == var:
+            mark = len(self.sinks[-1])
+            res = self.ev(n.generators[0].iter, st.fork())
+            del self.sinks[-1][mark:]
+            if len(res) == 1 and self.is_zlist(res[0][0], res[0][1]) and isinstance(res[0][0].obj(res[0][1].ref).cls, tuple):
+                out = []
+                for (s2, it) in self.ev(n.generators[0].iter, st):
+                    o = s2.obj(it.ref)
+                    out.append((s2, zl(s2, self, o.data, ekind=o.cls)))
+                return out
+            return None
         if not (isinstance(e, ast.Call) and isinstance(e.func, ast.Name) and not e.args and len(e.keywords) == 1
                 and isinstance(e.keywords[0].value, ast.Name) and e.keywords[0].value.id == var):
             return None
